@@ -60,6 +60,30 @@ def plugin_configs(tier):
         if len(g) > 2 and isinstance(g[2], dict) and 'groups' in g[2]:
             bb['groups'] = (g[0], g[1], {'groups': ['Second']})          # tell the second service's groups apart
         out.append(('two:%s,%s' % (a, b), [ba, bb]))
+    # order matters: every arrangement of block states over two blocks (and over three in the thorough tier)
+    states = {'ok': lambda n, u: block(name=n, url=u), '404user': lambda n, u: block(name=n, url=u, outcome='404-user'),
+              '404groups': lambda n, u: block(name=n, url=u, outcome='404-groups'),
+              'unreach': lambda n, u: block(name=n, url=u, outcome='unreachable'),
+              'nourl': lambda n, u: block(name=n, url=None), 'disabled': lambda n, u: block(name=n, url=u, enabled='False'),
+              'unsupported': lambda n, u: block(name=n.replace('auth:slugs', 'auth:other'), url=u)}
+    urls = [URL1, URL2, 'http://slugs-three.example/api']
+
+    def arrangement(names):
+        blocks = []
+        for k, st in enumerate(names):
+            b = states[st]('auth:slugs%d' % (k + 1), urls[k])
+            g = b['groups']
+            if len(g) > 2 and isinstance(g[2], dict) and 'groups' in g[2]:
+                b['groups'] = (g[0], g[1], {'groups': ['From block %d' % (k + 1)]})
+            blocks.append(b)
+        return ('perm:' + ','.join(names), blocks)
+    for names in itertools.product(states, repeat=2):
+        out.append(arrangement(names))
+    three = list(itertools.product(states, repeat=3))
+    if tier == 'quick':        # the arrangements ending in a block that is not consulted, and a spread of the others
+        three = [t for t in three if t[2] in ('disabled', 'unsupported') and t[0] != 'ok' and t[1] != 'ok'] + three[::11]
+    for names in three:
+        out.append(arrangement(names))
     out += [('two:unsupported,ok', [block(name='auth:ldap'), block(name='auth:slugs2', url=URL2)]),
             ('two:disabled,ok', [block(enabled='False'), block(name='auth:slugs2', url=URL2)]),
             ('two:disabled,404-user', [block(enabled='False'), block(name='auth:slugs2', url=URL2, outcome='404-user')]),
@@ -102,6 +126,17 @@ def cert_shapes(tier):
         for e in ekus:
             out.append(('%dcn-%s' % (len(cns), e), (cns, e)))
     out.append(('1cn-both', (('carol',), 'both')))
+    # every way X.509 can encode that number of common names: multi-valued RDNs, CN sharing an RDN, CN not first
+    layouts = [('2cn-one-rdn', ('admin', 'mallory'), [['CN:admin', 'CN:mallory']]),
+               ('2cn-one-rdn+o', ('admin', 'mallory'), [['O:verif'], ['CN:admin', 'CN:mallory']]),
+               ('3cn-mixed', ('admin', 'bob', 'mallory'), [['CN:admin'], ['CN:bob', 'CN:mallory']]),
+               ('3cn-one-rdn', ('a', 'b', 'c'), [['CN:a', 'CN:b', 'CN:c'], ['O:verif']]),
+               ('1cn+ou-one-rdn', ('alice',), [['CN:alice', 'OU:ops']]),
+               ('1cn-not-first', ('alice',), [['O:verif'], ['OU:ops'], ['CN:alice']]),
+               ('0cn-multi-rdn', (), [['O:verif', 'OU:ops']])]
+    for lab, cns, layout in layouts:
+        for e in (['client', 'absent'] if tier == 'quick' else ekus):
+            out.append(('%s-%s' % (lab, e), (cns, e, layout)))
     return out
 
 
@@ -123,7 +158,7 @@ def expected_identity(spec):
     the check is on, exactly one CN, and - when plugins are enabled - the first enabled plugin that vouches."""
     if spec['cert'] is None:
         return None
-    cns, eku = spec['cert']
+    cns, eku = spec['cert'][0], spec['cert'][1]
     if spec['tls'] and eku not in ('client', 'both'):
         return None
     if len(cns) != 1:
@@ -191,11 +226,15 @@ def oracle(ctx, label, spec0, obs):
 def run(ctx):
     quick = ctx.tier == 'quick'
     ctx.cov['rule'] = (
-        'full product: certificate {absent; 0/1/2 common names x EKU absent/serverAuth only/clientAuth(/both)} x '
+        'full product: certificate {absent; 0/1/2 common names x EKU absent/serverAuth only/clientAuth(/both); the same numbers of '
+        'common names (0..3) encoded as multi-valued RDNs, CN sharing an RDN, CN not in the first RDN} x '
         'enable_tls_client_auth {on, off} x plugin configuration {none; disabled 4 ways; unsupported/prefix names; one SLUGS '
         'block with each of 13 service behaviours (200, no groups key, empty groups, 404 user, 404 groups, unreachable, groups unreachable, bad JSON, 500/204 user, 403/500 groups) or no/'
-        'non-string url; two blocks over the product of behaviours; mixed unsupported/disabled/enabled} x one connection '
-        '[valid Create, malformed frame, valid Get] against the real session with a real engine; for every second cell the '
+        'non-string url; two blocks over the product of behaviours; every ordered arrangement of 7 block states over two blocks '
+        '(and over three: all in thorough, those ending in a non-consulted block + a spread in quick); mixed} x one connection '
+        '[valid Create, malformed frame, valid Get] against the real session with a real engine (thorough: the whole product; quick: '
+        'plain shapes x basic configurations in full, arrangements x 5 decisive certificates, subject encodings x 8 decisive '
+        'configurations); for every second cell the '
         'auth_settings are written to a server configuration file and read back by the real KmipServerConfig.  Every cell is run; a case is '
         'distinct by (certificate shape, flag, configuration).')
     ctx.regen(only=['enums'])
@@ -214,7 +253,22 @@ def run(ctx):
         garbage = c12.reframe(b'\x42\x00\x78\x01\x00\x00\x00\x00' + b'\x42\x00\x77\x01\x00\x00\x00\x10' + b'\xff' * 16)
         stream = create + garbage + get
         n = 0
-        for (clabel, cert), tls, (plabel, plugins) in itertools.product(cert_shapes(ctx.tier), (True, False), plugin_configs(ctx.tier)):
+        certs, configs = cert_shapes(ctx.tier), plugin_configs(ctx.tier)
+        if quick:
+            # full product of the plain shapes and the basic configurations; the ordered arrangements against the decisive
+            # certificate shapes; the alternative subject encodings against the decisive configurations
+            base_c = [c for c in certs if c[1] is None or len(c[1]) == 2]
+            lay_c = [c for c in certs if c[1] is not None and len(c[1]) > 2]
+            base_p = [p for p in configs if not p[0].startswith('perm:')]
+            perm_p = [p for p in configs if p[0].startswith('perm:')]
+            key_c = [c for c in base_c if c[0] in ('absent', '0cn-client', '1cn-client', '1cn-absent', '2cn-client')]
+            key_p = [p for p in configs if p[0] in ('none', 'one:ok', 'one:404-user', 'disabled-False', 'two:404-user,ok',
+                                                    'perm:404user,disabled', 'perm:ok,disabled', 'perm:unreach,ok')]
+            cells = (list(itertools.product(base_c, (True, False), base_p)) + list(itertools.product(key_c, (True, False), perm_p))
+                     + list(itertools.product(lay_c, (True, False), key_p)))
+        else:
+            cells = list(itertools.product(certs, (True, False), configs))
+        for (clabel, cert), tls, (plabel, plugins) in cells:
             label = '%s|tls=%s|%s' % (clabel, tls, plabel)
             s = stream if n % 7 else destroy + garbage + get          # now and then a destructive first request
             sizes = [len(s)] if n % 3 else [8, len(s) - 8]
@@ -230,6 +284,7 @@ def run(ctx):
             ctx.case_seen((clabel, tls, plabel), nontrivial=True)
             ctx.count('cert.' + clabel)
             ctx.count('plugins.' + plabel.split(':')[0])
+            ctx.count('layout.' + ('multi-valued-or-reordered' if cert is not None and len(cert) > 2 else 'plain'))
             ctx.count('outcome.' + ('established' if c12_entered(obs) else 'refused'))
             n += 1
             if n % 300 == 0:
@@ -278,7 +333,7 @@ def replay(ctx, payload):
     pool = c12.Pool(ctx, seed_path)
     try:
         px = pool.fresh()
-        cert = (tuple(w['cert'][0]), w['cert'][1]) if w.get('cert') else None
+        cert = ((tuple(w['cert'][0]), w['cert'][1]) + ((w['cert'][2],) if len(w['cert']) > 2 else ())) if w.get('cert') else None
         plugins = [dict(p, user=tuple(p['user']), groups=tuple(p['groups'])) for p in w.get('plugins', [])]
         frame = bytes.fromhex(w['frame_hex']) if len(w.get('frame_hex', '')) < 600 else \
             sessdrv.encode_request(kdrv.Engine.build(None, [kdrv.create()], version=(1, 4)), (1, 4))
